@@ -96,6 +96,45 @@ pub fn main() {
         }
         let mut out = json!({"id": v.get("id").cloned().unwrap_or(Value::Null), "after": after,
                              "rt_after": rt_after, "flag_after": flag_after, "acc_after": acc_after, "roundtrips": rts});
+        if let Some(dir) = v.get("rt_snapshot_dir").and_then(|b| b.as_str()) {
+            // register snapshots through the runtime's own files, two generations: A (scratch registers set) -> file -> B;
+            // B changes some scratch registers back to 0 and others to new values -> file -> C. C must read what B read.
+            let seed = v.get("id").and_then(|x| x.as_u64()).unwrap_or(0) as u32;
+            let p1 = std::path::Path::new(dir).join(format!("gen1-{seed}.snap"));
+            let p2 = std::path::Path::new(dir).join(format!("gen2-{seed}.snap"));
+            let mut a = CoreRuntime::new();
+            for t in 0..14u8 {
+                a.state.set_reg(RegName::Temp(t), ((seed + 1) * 0x1357 ^ (t as u32 + 1) * 0x020305) & 0xFFFFFF | 1);
+            }
+            a.state.set_reg(RegName::X, 0x12345);
+            let mut gen = json!({});
+            let mut b = CoreRuntime::new();
+            if let Err(e) = a.save_snapshot(&p1).and_then(|_| b.load_snapshot(&p1)) {
+                gen["error"] = json!(e.to_string());
+            } else {
+                for t in 0..14u8 {
+                    if (t as u32 + seed) % 3 == 0 {
+                        b.state.set_reg(RegName::Temp(t), 0);
+                    } else if (t as u32 + seed) % 3 == 1 {
+                        b.state.set_reg(RegName::Temp(t), (t as u32 + 7) * 0x1111);
+                    }
+                }
+                b.state.set_reg(RegName::Y, 0x54321);
+                let mut c = CoreRuntime::new();
+                if let Err(e) = b.save_snapshot(&p2).and_then(|_| c.load_snapshot(&p2)) {
+                    gen["error"] = json!(e.to_string());
+                } else {
+                    gen["a"] = json!((0..14u8).map(|t| a.state.get_reg(RegName::Temp(t))).collect::<Vec<u32>>());
+                    gen["b"] = json!((0..14u8).map(|t| b.state.get_reg(RegName::Temp(t))).collect::<Vec<u32>>());
+                    gen["c"] = json!((0..14u8).map(|t| c.state.get_reg(RegName::Temp(t))).collect::<Vec<u32>>());
+                    gen["b_regs"] = json!(all(&b.state));
+                    gen["c_regs"] = json!(all(&c.state));
+                }
+            }
+            let _ = std::fs::remove_file(&p1);
+            let _ = std::fs::remove_file(&p2);
+            out["generations"] = gen;
+        }
         if let Some(h) = v.get("unpack_blob").and_then(|b| b.as_str()) {
             let bytes: Vec<u8> = (0..h.len() / 2).filter_map(|i| u8::from_str_radix(&h[2 * i..2 * i + 2], 16).ok()).collect();
             match unpack_registers(&bytes) {
